@@ -213,7 +213,24 @@ func checkC18(c *Ctx) {
 					base = x.X
 					k, okk = constInt(x.Index)
 				case *ssa.Slice:
-					// s.SendingData... passed on as a whole
+					// s.Address[:] / s.NumReqBytes[:] handed on as a whole (append, copy, range): all indices are read
+					if n, _, ok := fieldOf(x.X); ok {
+						if m, ok := idx[n]; ok && len(liveRefs(x)) > 0 {
+							lo, okl := int64(0), true
+							if x.Low != nil {
+								lo, okl = constInt(x.Low)
+							}
+							hi, okh := int64(3), true
+							if x.High != nil {
+								hi, okh = constInt(x.High)
+							}
+							if okl && okh {
+								for k := lo; k < hi; k++ {
+									m[k] = true
+								}
+							}
+						}
+					}
 				}
 				if base != nil && okk {
 					if l, ok := base.(*ssa.UnOp); ok {
